@@ -43,10 +43,14 @@ structure Dim where
   naxes : Nat
   deriving Repr, DecidableEq
 
-/-- One auxiliary card as `read_fits_core` sees it: `strlen(key)+1`, `strlen(value)+1`. -/
+/-- One auxiliary card as `read_fits_core` sees it: `keylen = strlen(key)+1`, `vallen = strlen(value)+1` of the raw
+    card value cfitsio returns (a string value still carries its enclosing quotes, embedded quotes doubled), and
+    `storedlen = strlen(stored)+1` of the string the table keeps (enclosing quotes removed, doubled quotes
+    un-doubled; equal to `vallen` exactly when the raw value does not start with a quote). -/
 structure AuxEntry where
   keylen : Nat
   vallen : Nat
+  storedlen : Nat
   deriving Repr, DecidableEq
 
 /-- A table file together with the convolution declared to `estimateMemory`. -/
@@ -69,6 +73,8 @@ structure SiteEnv where
   naux : Nat := 0
   keylen : Nat := 0
   valuelen : Nat := 0
+  /-- the local `storedlen` of `read_fits_core` -/
+  storedlen : Nat := 0
   /-- `strides[0]*naxes[0]` of the table as it is *before* the shape update -/
   ncoeffs : Nat := 0
   /-- the local `arraysize` of `convolve` (coefficient count of the convolved table) -/
@@ -80,11 +86,14 @@ inductive SiteKind where
   | alloc
   | free
 
-/-- An `allocate<T>(count)` or `deallocate(p, count)` call: element size and count expression. -/
+/-- An `allocate<T>(count)` or `deallocate(p, count)` call: element size, count expression, and the condition
+    (`if (…)` around the call inside its loop body; `fun _ => true` for an unconditional call) under which it is
+    executed on the path that does not throw. -/
 structure Site where
   kind : SiteKind
   elemSize : Nat
   count : SiteEnv → Nat
+  cond : SiteEnv → Bool
 
 /-- Source-order structure of the allocator calls of a function. -/
 inductive Block where
@@ -101,6 +110,10 @@ def evalSite (env : SiteEnv) (s : Site) : Event :=
   match s.kind with
   | .alloc => .alloc (s.count env * s.elemSize)
   | .free => .free (s.count env * s.elemSize)
+
+/-- The calls of a straight-line body that are executed in environment `env`, in source order. -/
+def evalSites (env : SiteEnv) (body : List Site) : List Event :=
+  (body.filter (fun s => s.cond env)).map (evalSite env)
 
 def prodNaxes : List Dim → Nat
   | [] => 1
